@@ -812,14 +812,31 @@ func TestVerifC02ExpandByTime(t *testing.T) {
 	fetch("c", 0) // everybody holds message 0: committed
 	// c falls silent; b keeps reporting; the leader's tick removes c
 	removed := false
-	for i := 0; i < 40 && !removed; i++ {
-		heartbeatB()
-		time.Sleep(100 * time.Millisecond)
+	for i := 0; i < 400 && !removed; i++ {
+		if i%10 == 0 {
+			heartbeatB()
+		}
+		time.Sleep(10 * time.Millisecond)
 		removed = !inISR("c")
 	}
+	tickAt := time.Now() // the tick that removed c (within 10 ms); the next ones follow at intervals of the max lag time
 	verdict := vM{"k": "expand-by-time", "removed_by_tick": removed}
 	if removed {
 		observe(vM{"op": "shrink", "r": "c"})
+		// c reports 550 ms after that tick: the next tick (at 1000 ms) finds it "seen and caught up within the last
+		// second" and c then stays a member until 1550 ms -- time enough to commit two messages before the tick and
+		// to look at the in-sync set and elect c after it
+		if d := 550*time.Millisecond - time.Since(tickAt); d > 0 {
+			for d > 0 {
+				heartbeatB()
+				step := 100 * time.Millisecond
+				if d < step {
+					step = d
+				}
+				time.Sleep(step)
+				d -= step
+			}
+		}
 		fetch("c", 0) // c is seen again, at the log end
 		publish(client.AckPolicy_ALL)
 		publish(client.AckPolicy_ALL)
@@ -835,9 +852,11 @@ func TestVerifC02ExpandByTime(t *testing.T) {
 			return
 		}
 		readded := false
-		for i := 0; i < 30 && !readded; i++ {
-			heartbeatB()
-			time.Sleep(100 * time.Millisecond)
+		for i := 0; i < 300 && !readded; i++ {
+			if i%10 == 0 {
+				heartbeatB()
+			}
+			time.Sleep(10 * time.Millisecond)
 			readded = inISR("c")
 		}
 		verdict["hw_before_readmission"], verdict["acks_before_readmission"], verdict["c_log_end"], verdict["readmitted_by_tick"] = hw, acks, len(logs["c"])-1, readded
@@ -848,6 +867,13 @@ func TestVerifC02ExpandByTime(t *testing.T) {
 		if readded {
 			stats["scenario/readmitted-behind-hw"]++
 			observe(vM{"op": "expand-behind", "r": "c"})
+			if !inISR("c") || !inISR("b") {
+				// the membership did not last long enough to be looked at (a slow machine)
+				verdict["inconclusive"] = true
+				out.emit(verdict)
+				out.emit(vM{"k": "stat", "dist": stats})
+				return
+			}
 			simC.mu.Lock()
 			simC.hw, simC.hwSent, simC.gated, simC.budget = 0, 0, true, -1
 			simC.mu.Unlock()
@@ -857,6 +883,12 @@ func TestVerifC02ExpandByTime(t *testing.T) {
 			}
 			leader, epoch = "c", e2
 			observe(vM{"op": "elect", "r": "c", "e": e2})
+			if !inISR("c") || !inISR("b") {
+				verdict["inconclusive"] = true // c's membership ended before the election was applied
+				out.emit(verdict)
+				out.emit(vM{"k": "stat", "dist": stats})
+				return
+			}
 			deadline := time.Now().Add(5 * time.Second)
 			for time.Now().Before(deadline) {
 				simC.mu.Lock()
